@@ -11,7 +11,8 @@ ASSUME Distinct /\ DistinctRanks
 
 NonPosSet == {0, -5}
 
-Emit == (done' /\ ~done) =>
+(* histories of length 3 (thorough tier) are replayed for the seeded observed calls with the first seed *)
+Emit == (done' /\ ~done /\ (Len(hist) < 3 \/ (Seeded(out'.call) /\ out'.call.seed = OneSeed))) =>
           PrintT(ToJson([hist |-> hist, call |-> out'.call, stream |-> out'.stream, stage2 |-> out'.stage2,
                          seeded |-> Seeded(out'.call), fresh |-> (out'.stream = Fresh(out'.call))]))
 =============================================================================
